@@ -17,10 +17,11 @@ def final(t):
     """trees modified in place after construction denote their final state:
     ('R', n, old, new)  a tag built around `old`, then re-pointed to `new` with cbor_tag_set_item     -> ('G', n, new)
     ('b2'|'t2', old, new)  a string whose handle is set twice on the same block                      -> ('b'|'t', new)
+    ('b3'|'t3', old, new)  a string whose handle is replaced by another block, the first released by the client  -> ('b'|'t', new)
     ('>', old, new)  (only as an array member) pushed `old`, then replaced in place by `new`           -> new"""
     k = t[0]
     if k == 'R': return ('G', t[1], t[3])
-    if k in ('b2', 't2'): return (k[0], t[2])
+    if k in ('b2', 't2', 'b3', 't3'): return (k[0], t[2])
     if k == '>': return final(t[2])
     if k == '!': return t[1]
     return t
@@ -30,6 +31,7 @@ def fmt(t):
     k = t[0]
     if k == 'R': return 'R(%d,%s,%s)' % (t[1], fmt(t[2]), fmt(t[3]))
     if k in ('b2', 't2'): return '%s(%s>%s)' % (k[0], hx(t[1]), hx(t[2]))
+    if k in ('b3', 't3'): return '%s(%s>>%s)' % (k[0], hx(t[1]), hx(t[2]))      # second handle is another block; the client releases the first
     if k == '>': return fmt(t[1]) + '>' + fmt(t[2])
     if k == '!': return fmt(t[1]).replace('(', '!(', 1)      # the same leaf built through cbor_new_* + cbor_set_* (or cbor_new_null / undef / build_bool)
     if k in 'un': return '%s%d(%d)' % (k, t[1], t[2])
@@ -220,6 +222,7 @@ def corpus(tier, rng, assigned_only=True):
         mods.append(('t2', old, new)); mods.append(('b2', old, new))
         mods.append(('M', [(('t2', old, new), ('b2', new, old), False)], ''))
         mods.append(('G', 2, ('t2', old, new)))
+        mods.append(('t3', old, new)); mods.append(('b3', old, new)); mods.append(('A', [(('t3', new, old), False), (('b3', old, new), False)], ''))
     for lf in leaves(assigned_only)[::3]:
         if lf[0] in 'unhsdc': mods.append(('!', lf)); mods.append(('A', [(('!', lf), False), (lf, False)], ''))
     mods.append(('R', 5, ('R', 6, one, ('t', b'x')), ('A', [(('>', one, ('R', 7, one, ('u', 16, 9))), False)], '')))
